@@ -16,6 +16,25 @@ Definition proxy6 (lazy : bool) (wrl : list str) (disabled : bool) (strategy : Z
                (negb (open_warn_mode disabled strategy)) (loop_abort_mode disabled strategy)
                (rm_labels wrl) limit batch ss.
 
+(* what the receiver makes of a store's stream that ends with an error that is not io.EOF itself but
+   may wrap it ([wraps]): with the source's end-of-stream test ([recv_eos_lazy] / [recv_eos_eager],
+   regenerated) it stays a failure unless the test also accepts wrapping errors *)
+Definition effective (lazy : bool) (wrl : list str) (wraps : bool) (s : script) : script :=
+  match send s with
+  | ERecvErr _ =>
+      let read_lazily := lazy && negb (negb (ssupports s) && (match wrl with [] => false | _ => true end)) in
+      if (if read_lazily then recv_eos_lazy false wraps else recv_eos_eager false wraps)
+      then MkScript (sopen_err s) (sframes s) EEof (ssupports s)
+      else s
+  | EEof => s
+  end.
+Fixpoint effective_all (lazy : bool) (wrl : list str) (ws : list bool) (ss : list script) : list script :=
+  match ss with
+  | [] => []
+  | s :: r => effective lazy wrl (match ws with w :: _ => w | [] => false end) s
+              :: effective_all lazy wrl (match ws with _ :: t => t | [] => [] end) r
+  end.
+
 (* the warning the proxy makes of a store's failure, if it fails *)
 Definition fail_warning (s : script) : option str :=
   match sopen_err s with
@@ -45,6 +64,7 @@ Definition querier_select (lazy partial : bool) (batch : nat) (ss : list script)
 
 Inductive case :=
 | CFail (lazy : bool) (buf : nat) (wrl : list str) (disabled : bool) (strategy : Z) (batch : nat) (stores : list script)
+        (wraps : list bool)   (* per store: its failure's error wraps io.EOF (errors.Is) without being io.EOF *)
         (* implementation observables: None = Series returned an error; frames with warning texts blanked,
            warning texts sorted (a warning naming a failing store is replaced by that store's token) *)
         (o_frames : option (list frame)) (o_warns : list str)
@@ -54,14 +74,14 @@ Inductive case :=
 
 Definition corr_ok (c : case) : bool :=
   match c with
-  | CFail lazy buf wrl disabled strategy batch stores o_frames o_warns q_partial o_q =>
-      (match proxy6 lazy wrl disabled strategy 0 batch stores, o_frames with
+  | CFail lazy buf wrl disabled strategy batch stores wraps o_frames o_warns q_partial o_q =>
+      (match proxy6 lazy wrl disabled strategy 0 batch (effective_all lazy wrl wraps stores), o_frames with
       | Some fs, Some ofs =>
           list_eqb frame_eqb (map anon fs) ofs && list_eqb str_eqb (ssort (frame_warnings fs)) o_warns
       | None, None => true
       | _, _ => false
       end)
-      && match querier_select lazy q_partial batch stores, o_q with
+      && match querier_select lazy q_partial batch (effective_all lazy [] wraps stores), o_q with
          | None, None => true
          | Some (ls, ws), Some (ols, ows) => list_eqb labels_eqb ls ols && list_eqb str_eqb ws ows
          | _, _ => false
@@ -71,7 +91,7 @@ Definition corr_ok (c : case) : bool :=
 (* the property on the implementation's own result *)
 Definition pred_ok (c : case) : bool :=
   match c with
-  | CFail lazy buf wrl disabled strategy batch stores o_frames o_warns q_partial o_q =>
+  | CFail lazy buf wrl disabled strategy batch stores wraps o_frames o_warns q_partial o_q =>
       (let abort := disabled || (strategy =? ABORT) in
       if abort then
         (* a failing (or warning) store fails the request; without one it succeeds *)
